@@ -9,7 +9,9 @@ rendering event.  Histories reaching an already seen canonical state are not ext
 E4: for every explored history up to a smaller depth, an exception is injected (a) at every
 render-call index of a faulty renderable / progress column and (b) after every position of
 the `with` block; then cursor visibility, stdout/stderr identity, hook stack and propagation
-are checked, and the history is continued to see that nothing partial was written.
+are checked. (c) "caught and continued": the k-th render call raises once, the caller catches the
+exception and the history goes on; from the next successful rendering on the screen oracle applies
+again (the faulted print may have happened as a whole or not at all, nothing else may be damaged).
 """
 import io
 import sys
@@ -93,8 +95,12 @@ class Session:
         self.nprint = 0
         self.max_h = 0            # Progress keeps the largest frame height (blank padding) -- ignored by rstrip of trailing blanks
         self.tasks = []           # progress reference: [id, desc, completed, visible]
+        self.n_added = 0
         self.judge_frame = True
         self.candidates = None
+        self.perm_alt = None           # after a faulted print: the printed lines may or may not have reached the screen
+        self.pending_lines = None
+        self.skip_screen = False       # after a fault the screen is judged again from the next successful rendering on
         self._build()
 
     # -- construction
@@ -171,6 +177,7 @@ class Session:
         the region with either the frame of the last refresh (Progress keeps the table it built then) or
         the current renderable (Live) -- the statement asks for 'the most recently refreshed live frame',
         and a print is allowed to count as a refresh, so both are accepted."""
+        self.skip_screen = False
         if self.started:
             self.candidates = [self._snapshot()] if must_be_current else [self._snapshot(), self.shown]
             self.shown = self._snapshot()
@@ -204,26 +211,26 @@ class Session:
         if k in ("print1", "print2", "printW", "log", "stdout", "print0"):
             self.nprint += 1
             tag = "x%d" % (self.nprint % 3)
+            wide = (tag * self.W)[:self.W]
+            lines = {"print1": [tag], "print2": [tag, tag + "'"], "printW": [wide], "log": [tag], "print0": [""],
+                     "stdout": [tag]}[k]
+            self.pending_lines = lines
             if k == "print1":
                 c.print(tag)
-                lines = [tag]
             elif k == "print2":
                 c.print(tag + "\n" + tag + "'")
-                lines = [tag, tag + "'"]
             elif k == "printW":
-                s = (tag * self.W)[:self.W]
-                c.print(s)
-                lines = [s]
+                c.print(wide)
             elif k == "log":
                 c.log(tag)
-                lines = [tag]
             elif k == "print0":
                 c.print()
-                lines = [""]
             else:
                 print(tag)          # builtin print through the redirected sys.stdout
-                lines = [tag]
+            self.pending_lines = None
             self.perm += lines
+            if self.perm_alt is not None:
+                self.perm_alt += lines
             self._rendered(must_be_current=False)
         elif k == "update":
             self.cur = ev[1]
@@ -240,11 +247,13 @@ class Session:
                 self.started = False
                 if not self.transient:
                     # the final frame is rendered in full ('visible') and stays
-                    if self.kind == "live":
-                        self.perm += frame_lines(self.cur, FRAMES[self.cur])
-                    else:
-                        self.perm += self._frame_expected(self._snapshot())
+                    final = frame_lines(self.cur, FRAMES[self.cur]) if self.kind == "live" \
+                        else self._frame_expected(self._snapshot())
+                    self.perm += final
+                    if self.perm_alt is not None:
+                        self.perm_alt += final
                 self.shown = None
+                self.skip_screen = False
         elif k == "start":
             was = self.started
             d.start()
@@ -254,9 +263,12 @@ class Session:
         elif k == "tick":
             self.clock[0] += 1.0
         elif k == "add_task":
-            i = len(self.tasks)
+            i = self.n_added
+            self.n_added += 1
+            # the task is registered before add_task refreshes: it exists even if that refresh raises
+            self.tasks.append([i, "t%d" % i, 0, True])
             tid = d.add_task("t%d" % i, total=10)
-            self.tasks.append([tid, "t%d" % i, 0, True])
+            self.tasks[-1][0] = tid
             self._rendered()                         # add_task refreshes
         elif k == "advance":
             t = self.tasks[ev[1]]
@@ -271,8 +283,8 @@ class Session:
             d.remove_task(t[0])
         elif k == "reset":
             t = self.tasks[ev[1]]
+            t[2] = 0                                 # the counters are reset before reset() refreshes
             d.reset(t[0])
-            t[2] = 0
             self._rendered()                         # reset refreshes
         elif k == "status":
             self.status_text = ev[1]
@@ -284,6 +296,21 @@ class Session:
             self._rendered()
         else:
             raise ValueError(ev)
+
+    def on_fault(self, ev):
+        """An injected fault escaped from event ev and was caught by the caller (the session goes on).
+        Returns False when the history cannot be continued meaningfully (fault inside stop/start)."""
+        if ev[0] in ("stop", "start", "add_task"):
+            # (a fault inside add_task's refresh leaves the task registered but the id counter not advanced, so
+            # the next add_task silently replaces it -- task bookkeeping is outside this property; not continued)
+            return False
+        if self.pending_lines is not None:
+            # the print may or may not have happened as a whole
+            self.perm_alt = list(self.perm) + list(self.pending_lines)
+            self.pending_lines = None
+        self.skip_screen = True
+        self.candidates = None
+        return True
 
     def feed(self):
         data = self.file.getvalue()
@@ -319,21 +346,27 @@ class Session:
         if any(f is None for f in frames):
             self.judge_frame = False     # a 'visible' over-tall frame was drawn: the documentation disclaims the result from here on
         for e in scr.events:
-            if e[0] == "clamp-up" and self.judge_frame:
+            if e[0] == "clamp-up" and self.judge_frame and not self.skip_screen:
                 out.append((tag + "/cursor-above-screen" + suffix, "cursor-up clamped at the top: %r" % (e,)))
             elif e[0] == "unknown":
                 out.append((tag + "/unknown-control", repr(e)))
         scr.events = []
-        if self.judge_frame:
+        if self.judge_frame and not self.skip_screen:
             got_raw = scr.visible_lines()
             ok = False
-            for cand, frame in zip(cands, frames):
-                want = self._norm(list(self.perm) + list(frame), len(frame))
-                got = self._norm(got_raw, len(frame))
-                if got == want:
-                    ok = True
-                    if self.started:
-                        self.shown = cand
+            perms = [self.perm] + ([self.perm_alt] if self.perm_alt is not None else [])
+            for perm in perms:
+                for cand, frame in zip(cands, frames):
+                    want = self._norm(list(perm) + list(frame), len(frame))
+                    got = self._norm(got_raw, len(frame))
+                    if got == want:
+                        ok = True
+                        if self.started:
+                            self.shown = cand
+                        self.perm = list(perm)
+                        self.perm_alt = None
+                        break
+                if ok:
                     break
             if not ok:
                 want = self._norm(list(self.perm) + list(frames[0]), len(frames[0]))
@@ -521,6 +554,54 @@ def _faults(cfg, histories, maxdepth, res):
     res.count("fault_histories", len([h for h in histories if len(h) <= maxdepth]))
 
 
+def _run_continue(cfg, hist, k):
+    """The user catches the exception of the faulted event and goes on: replays hist with the k-th render
+    call raising once; every later event is judged by the normal screen oracle.
+    -> (violations [(key, detail, index)], faulted_at or None)"""
+    s = Session(cfg, k)
+    out = []
+    faulted = None
+    try:
+        for i, ev in enumerate(hist):
+            try:
+                s.apply(ev)
+            except InjectedFault:
+                faulted = i
+                if not s.on_fault(ev):
+                    break
+            s.feed()
+            v = s.check(ev)
+            if faulted is not None:
+                out += [(key, detail, i) for key, detail in v]
+            if v:
+                break
+        return out, faulted
+    finally:
+        s.close()
+
+
+def _faults_continue(cfg, histories, res):
+    for hist in histories:
+        if deadline_passed():
+            res.capped = True
+            return
+        base = Session(cfg, 10 ** 9)
+        try:
+            for ev in hist:
+                base.apply(ev)
+            K = base.render_calls[0]
+        except Exception:
+            K = 0
+        finally:
+            base.close()
+        for k in range(1, K + 1):
+            vio, faulted = _run_continue(cfg, hist, k)
+            res.evaluations += 1
+            res.sig((cfg["kind"], "fault-continue", faulted is not None, bool(vio)), nontrivial=faulted is not None)
+            for key, detail, i in vio:
+                res.violate(key, {"cfg": cfg, "history": hist, "fault_continue": k}, detail + " (after a fault at render call %d, event %d)" % (k, faulted))
+
+
 def _run_block(cfg, hist, fault_k, fault_pos):
     """Runs `with display: events...` with a fault at render call fault_k or after block position fault_pos."""
     s = Session(cfg, fault_k if fault_k is not None else 10 ** 9)
@@ -592,8 +673,9 @@ def run_shard(sh, tier, seed):
             res.sample({"cfg": cfg, "history": [list(first), ["print1"], ["update", 3, True], ["stop"]]}, limit=1)
     else:
         sub = Result()
-        hs = _bfs(cfg, first, FAULT_DEPTH[tier][cfg["kind"]], sub)
+        hs = _bfs(cfg, first, FAULT_DEPTH[tier][cfg["kind"]] + 1, sub)
         _faults(cfg, hs, FAULT_DEPTH[tier][cfg["kind"]], res)
+        _faults_continue(cfg, hs, res)
         if sh["first"] == 0:
             res.sample({"cfg": cfg, "history": [list(first)], "fault": ["render", 1]}, limit=1)
     return res
@@ -632,6 +714,9 @@ def replay(case):
     cfg = case["cfg"]
     hist = [tuple(e) for e in case["history"]]
     res = Result()
+    if "fault_continue" in case:
+        vio, _f = _run_continue(cfg, hist, case["fault_continue"])
+        return sorted(set((k, d) for k, d, _i in vio))
     if "fault" in case:
         f = case["fault"]
         out = _run_block(cfg, hist, f[1] if f[0] == "render" else None, f[1] if f[0] == "block" else None)
